@@ -379,11 +379,23 @@ func (cfg *Config) perElemOps(pe *syntax.ParamExp, elems []string) ([]string, er
 
 // replaceElems applies a ${var/pattern/repl} replacement to each element.
 func (cfg *Config) replaceElems(repl *syntax.Replace, elems []string) ([]string, error) {
-	orig, err := Pattern(cfg, repl.Orig)
+	origWord := repl.Orig
+	// An unquoted leading # or % anchors a single replacement
+	// at the start or at the end of the value.
+	var anchor byte
+	if !repl.All && origWord != nil && len(origWord.Parts) > 0 {
+		if lit, ok := origWord.Parts[0].(*syntax.Lit); ok && lit.Value != "" && (lit.Value[0] == '#' || lit.Value[0] == '%') {
+			anchor = lit.Value[0]
+			rest := *lit
+			rest.Value = lit.Value[1:]
+			origWord = &syntax.Word{Parts: append([]syntax.WordPart{&rest}, origWord.Parts[1:]...)}
+		}
+	}
+	orig, err := Pattern(cfg, origWord)
 	if err != nil {
 		return nil, err
 	}
-	if orig == "" {
+	if orig == "" && anchor == 0 {
 		return elems, nil // nothing to replace
 	}
 	with, err := literal(cfg, repl.With, false)
@@ -396,7 +408,12 @@ func (cfg *Config) replaceElems(repl *syntax.Replace, elems []string) ([]string,
 	}
 	out := make([]string, len(elems))
 	for i, elem := range elems {
-		locs := findAllIndex(orig, elem, n)
+		var locs [][]int
+		if anchor == 0 {
+			locs = findAllIndex(orig, elem, n)
+		} else if loc := findAnchoredIndex(orig, elem, anchor == '%'); loc != nil {
+			locs = [][]int{loc}
+		}
 		sb := cfg.strBuilder()
 		last := 0
 		for _, loc := range locs {
